@@ -74,7 +74,7 @@ CLAIMED = {
          "expression parser (yacc tables + grammar actions); 19/20-digit integer tokens and 8-hex-digit \\U escapes get their own harnesses. "
          "Include resolution (parseSource/getIncludes/checkIncludes/merge) runs on 1..3 (4) files with an arbitrary include relation: an error exactly for reachable cycles, no unbounded recursion. "
          "An uncaught Go panic on any path is a violation with concrete bytes, replayed natively. Partial: lexer contract and "
-         "token-consuming actions, not arbitrary long token sequences. H_C08_compileCorners: seven programs which used to crash the compiler (mutual recursion, 1e39 resources, ...) end with an error or a result. H_C08_mismatchText: strings of 1..12 characters of 1-4 bytes bound to an int parameter in 3 positions.",
+         "token-consuming actions, not arbitrary long token sequences. H_C08_compileCorners: seven programs which used to crash the compiler (mutual recursion, 1e39 resources, ...) end with an error or a result. H_C08_mismatchText: strings of 1..12 characters of 1-4 bytes bound to an int parameter in 3 positions. H_C08_wrongKind (values presented as MRO source and vice versa: errors carry a position), H_C08_lineAfterString (positions after a string literal spanning 1..3 lines).",
          "Trusted: go/ssa, symgo, regex VM model, z3 / cvc5 --solve-bv-as-int (integer-token harness). The numeric value of a "
          "symbolic float literal is cut to an opaque value (float range errors outside). Outside: long inputs, larger include "
          "graphs, compile passes, time/memory proportionality.",
@@ -101,7 +101,7 @@ CLAIMED = {
          "DESIGN.md §4 (C16)"),
  "C10": ("Partial (order-independence of the emitters): every range over a Go map in the executed code picks an arbitrary permutation "
          "(engine-level nondeterminism); map expressions, binding maps, argument maps, metadata listings and job-script environment blocks with "
-         "2-3 distinct symbolic keys are emitted twice and the solver shows the two outputs are byte-identical on every pair of orders. Ten repository test programs are compiled, formatted and resolved under two fixed engine map orders and Go's random order (native replay) with equal results. Four ghost map orders (insertion, reverse, ascending and descending key) in H_SELF_compile / H_SELF_instantiate, six wide-map fixtures, H_C10_resolveErrors (error text of unresolvable parameters). H_C10_validateText (ValidateOutputs / ValidateInputs text under four map orders); eight map-order fixtures.",
+         "2-3 distinct symbolic keys are emitted twice and the solver shows the two outputs are byte-identical on every pair of orders. Ten repository test programs are compiled, formatted and resolved under two fixed engine map orders and Go's random order (native replay) with equal results. Four ghost map orders (insertion, reverse, ascending and descending key) in H_SELF_compile / H_SELF_instantiate, six wide-map fixtures, H_C10_resolveErrors (error text of unresolvable parameters). H_C10_validateText (ValidateOutputs / ValidateInputs text under four map orders); eight map-order fixtures. H_C10_srcSearchPath: stage code search over three source directories under four map orders.",
          "Trusted: go/ssa, symgo (map-order model), z3. Static fork-id enumeration over a map source (MakeForkIds) is sorted under every iteration order. Outside: whole-pipeline Format/MakeCallGraph identity, error-message order, "
          "cross-process repetition.",
          "DESIGN.md §4 (C10)"),
